@@ -49,6 +49,8 @@ func checkC01(r *Report, p *Program) {
 	oneWritePerChild(r, p, "R01.6")
 	// children the hook no longer lists are deleted (shared with C06)
 	deleteTable(r, p, "R01.7")
+	// the rollout gate and the merge compare against the hook's raw answer (shared with C06/C07)
+	lastAppliedIsHookAnswer(r, p, "R01.8")
 }
 
 func r01_children(r *Report, p *Program) {
